@@ -331,7 +331,7 @@ def run(rep):
                                        False))
 
     for ps in range(passes):
-        cases = gen_c04.matrix(rng_for(seed, "c04-matrix", ps), all_typedef_kinds=not quick)
+        cases = gen_c04.matrix(rng_for(seed, "c04-matrix", ps), all_typedef_kinds=True)
         sx = [c[0] for c in cases]
         rewrite = {k: (lambda src, t=meta["type"]: gen_c04.typedef_source(src, t)) for k, (_, meta) in enumerate(cases) if meta.get("typedef")}
         lap("matrix-generate")
@@ -472,7 +472,7 @@ def run(rep):
                 "ends in a runtime error",
         "exhaustive": True,
         "exhaustive_scope": "the matrix %d types x (%d CbCore store-path variants, each again with the type written through a typedef alias for "
-                            "the 5 signed types - quick tier: 7 of the value kinds -, + %d variants outside CbCore) x %d value kinds (cells that cannot be expressed - value outside "
+                            "the 5 signed types, + %d variants outside CbCore) x %d value kinds (cells that cannot be expressed - value outside "
                             "int64, no in-range start value - are skipped by construction); random programs are a sample" % (
                                 len(gen_c04.TYPES), len(gen_c04.PATHS), len(gen_c04.RAW_PATHS), len(gen_c04.KINDS)),
         "matrix_cells_run": matrix_cells, "matrix_cells_by_group": dict(group_cells), "matrix_passes": passes, "matrix_cells_where_mech_differs_from_spec": defect_cells,
